@@ -107,11 +107,14 @@ def points(tier: str) -> List[dict]:
         P.append({"spec": {"model": "qg5", "n": n, "sym": False, "cfg": {"var_h": 1}, "brute": True}, "count": "brute", "fix_var_h": 1})
         P.append({"spec": {"model": "qg5", "n": n, "sym": True, "cfg": {"var_h": 1}, "brute": True}, "sat": "brute", "fix_var_h": 1})
     g2 = lcg(11)
-    for i in range(4 if not th else 12):
+    for i in range(6 if not th else 18):
         n = 4
-        colors = [[0, 1, 2, 3], [1, 2, 3, 4], [2, 3, 4, 5]][next(g2) % 3]
+        colors = [[0, 1, 2, 3], [1, 2, 3, 4], [2, 3, 4, 5], [-2, -1, 0, 1]][i % 4]  # every colour set in every tier
         base = [[colors[(r + c) % n] for c in range(n)] for r in range(n)]
         givens = [[base[r][c] if next(g2) % 3 == 0 else -9 for c in range(n)] for r in range(n)]
+        if i % 2 == 0:
+            givens[0][0] = base[0][0]  # the first colour (0 for zero-based colours) is given somewhere
+            givens[1][1] = -9
         P.append({"spec": {"model": "latin", "n": n, "colors": colors, "givens": givens, "brute": True}, "count": "brute"})
     # known valid objects for models without a cheap exhaustive reference
     fano = [[1, 1, 1, 0, 0, 0, 0], [1, 0, 0, 1, 1, 0, 0], [1, 0, 0, 0, 0, 1, 1], [0, 1, 0, 1, 0, 1, 0], [0, 1, 0, 0, 1, 0, 1],
